@@ -315,8 +315,14 @@ def run(ctx):
             nfiles = r2.choice([1, 1, 2, 3, 10, 11, 21, 25])       # (also more files than any batch size)
             contents = [bytes(r2.choice(b"H|\\^&P1|OR\rL\xe9\xff \n") for _ in range(r2.randrange(1, 40))) for _ in range(nfiles)]
             paths = []
+            same_names = r2.random() < 0.3
             for i, c in enumerate(contents):
-                pth = os.path.join(tmp, "m%d.txt" % i)
+                if same_names:
+                    # daily folders with equally named files
+                    os.makedirs(os.path.join(tmp, "d%d" % i), exist_ok=True)
+                    pth = os.path.join(tmp, "d%d" % i, "results.astm")
+                else:
+                    pth = os.path.join(tmp, "m%d.txt" % i)
                 with open(pth, "wb") as fh:
                     fh.write(c)
                 paths.append(pth)
